@@ -8,7 +8,9 @@ what is assumed about it is the named hypothesis `HExpat` (Spec/ExpatTrace.lean)
 
   H-expat.  For a fixed byte stream the callback sequences produced under two chunkings are equal
   up to splitting/merging of adjacent character-data callbacks, an error is reported at the same
-  position, character data contains no NUL, and end-element callbacks are matched.
+  position (up to character data directly in front of it — expat really drops the text in front
+  of a `]]>` it sees in one buffer, found by this check), character data contains no NUL,
+  end-element callbacks are matched, and a failed parser makes no further element callbacks.
 
 H-expat is NOT proved (level: proof, partial).  It is checked at run time on every recorded callback
 trace by check/props/c10.py (oracle iii; a failing run prints `H-expat:… hypothesis not met on this
@@ -82,27 +84,36 @@ theorem start_element_ns (nsname : Bytes) (attrs : List Attr) :
 
 /-- **chars_split_invariant.**  Two callback traces (restarts included) that differ only in how
     runs of character data are cut into callbacks give the same events and the same outcome. -/
-theorem chars_split_invariant (evs evs' : List In) (h : SameUpToCharSplit evs evs') (hn : NulFree evs) :
+theorem chars_split_invariant (evs evs' : List In) (h : SameUpToCharSplit evs evs') (hn : NulFree evs)
+    (he : ErrFinal evs) :
     assemble evs = assemble evs' := by
   unfold assemble
   rw [run_abs init evs textInv_init, run_abs init evs' textInv_init]
-  exact same_aRun h hn (abs init)
+  exact same_aRun h hn false he (abs init)
 
 /-- in particular: any number of pieces `d :: ds` anywhere in a trace acts like the single callback
     with their concatenation -/
 theorem text_whole (pre post : List In) (d : Bytes) (ds : List Bytes)
-    (hn : NulFree (pre ++ (d :: ds).map In.chars ++ post)) :
+    (hn : NulFree (pre ++ (d :: ds).map In.chars ++ post))
+    (he : ErrFinal (pre ++ (d :: ds).map In.chars ++ post)) :
     assemble (pre ++ (d :: ds).map In.chars ++ post) = assemble (pre ++ [In.chars (d :: ds).flatten] ++ post) :=
-  chars_split_invariant _ _ (same_context (same_pieces d ds) pre post) hn
+  chars_split_invariant _ _ (same_context (same_pieces d ds) pre post) hn he
 
 /-! ### chunk invariance, given H-expat -/
+
+/- Full strength (NOT proved; this is what makes C10 "proof, partial"):
+     theorem chunk_invariant_full (chunks₁ chunks₂ : List Bytes) (h : chunks₁.flatten = chunks₂.flatten) :
+         deliver libexpat chunks₁ = deliver libexpat chunks₂
+   for a model `libexpat : Expat` of the real tokenizer.  Expat's tokenisation is outside the model;
+   what is proved below is the same statement for EVERY function `expat` that meets H-expat, and
+   H-expat is checked on the real expat's recorded callbacks at run time (c10.py, oracle iii). -/
 
 /-- **chunk_invariant.**  However the bytes are split across reads, the owner of the parser sees
     the same events (and the same outcome). -/
 theorem chunk_invariant (expat : Expat) (H : HExpat expat) (chunks₁ chunks₂ : List Bytes)
     (h : chunks₁.flatten = chunks₂.flatten) :
     deliver expat chunks₁ = deliver expat chunks₂ :=
-  chars_split_invariant _ _ (H.chunking chunks₁ chunks₂ h) (H.nulFree chunks₁)
+  chars_split_invariant _ _ (H.chunking chunks₁ chunks₂ h) (H.nulFree chunks₁) (H.errFinal chunks₁)
 
 private theorem restart_same (expat : Expat) (H : HExpat expat) :
     ∀ segs₁ segs₂ : List (List Bytes), segs₁.map List.flatten = segs₂.map List.flatten →
@@ -134,12 +145,24 @@ private theorem restart_nulFree (expat : Expat) (H : HExpat expat) :
     rw [nulFree_append, nulFree_cons]
     exact ⟨H.nulFree a, trivial, this⟩
 
+private theorem restart_errFinal (expat : Expat) (H : HExpat expat) :
+    ∀ segs : List (List Bytes), ErrFinal (restartTrace expat segs)
+  | [] => by simp [restartTrace, ErrFinal, errFinalFrom]
+  | [a] => by simpa [restartTrace] using H.errFinal a
+  | a :: a' :: rest => by
+    have h1 := H.errFinal a
+    have h2 := restart_errFinal expat H (a' :: rest)
+    unfold ErrFinal at *
+    simp only [restartTrace]
+    rw [errFinal_append_reset, h1, h2]; rfl
+
 /-- the same with stream restarts: a connection is a sequence of streams, the parser is reset
     between two streams, every stream may be chunked differently -/
 theorem chunk_invariant_restarts (expat : Expat) (H : HExpat expat) (segs₁ segs₂ : List (List Bytes))
     (h : segs₁.map List.flatten = segs₂.map List.flatten) :
     deliverRestarts expat segs₁ = deliverRestarts expat segs₂ :=
   chars_split_invariant _ _ (restart_same expat H segs₁ segs₂ h) (restart_nulFree expat H segs₁)
+    (restart_errFinal expat H segs₁)
 
 /-! ### a stream restart starts from a clean slate -/
 
@@ -331,6 +354,108 @@ example : HExpat toyExpat where
     simp [toyExpat] at hi
     rcases hi with h | h | h <;> subst h <;> simp [In.nulFree]
   balanced := fun c => by simp [toyExpat, Balanced, balancedFrom]
+  errFinal := fun c => by simp [toyExpat, ErrFinal, errFinalFrom]
+
+/-- an "expat" whose cutting of character data really depends on the chunking: one stream, one
+    element, and ONE character-data callback PER non-empty chunk (NUL bytes dropped) -/
+def pieces (chunks : List Bytes) : List Bytes :=
+  (chunks.map (·.filter (· ≠ 0))).filter (· ≠ [])
+
+def chunkyExpat : Expat := fun chunks =>
+  [.start (cs ['s']) [], .start (cs ['a']) []] ++ (pieces chunks).map In.chars
+
+private theorem flatten_filter_ne_nil (l : List Bytes) : (l.filter (· ≠ [])).flatten = l.flatten := by
+  induction l with
+  | nil => rfl
+  | cons x rest ih =>
+    by_cases hx : x = []
+    · simp [hx]; simpa using ih
+    · simp [List.filter, hx]; simpa using ih
+
+private theorem pieces_flatten (c : List Bytes) : (pieces c).flatten = c.flatten.filter (· ≠ 0) := by
+  unfold pieces
+  rw [flatten_filter_ne_nil, List.filter_flatten]
+
+private theorem pieces_ne_nil (c : List Bytes) : ∀ x ∈ pieces c, x ≠ [] := by
+  intro x hx
+  simp [pieces] at hx
+  intro e; simp [e] at hx
+
+private theorem same_of_flatten (l l' : List Bytes) (hne : ∀ x ∈ l, x ≠ []) (hne' : ∀ x ∈ l', x ≠ [])
+    (h : l.flatten = l'.flatten) : SameUpToCharSplit (l.map In.chars) (l'.map In.chars) := by
+  cases l with
+  | nil =>
+    cases l' with
+    | nil => exact .refl _
+    | cons e es =>
+      have : e = [] := by
+        have h' : ([] : Bytes) = e ++ es.flatten := by simpa using h
+        cases e with
+        | nil => rfl
+        | cons a b => simp at h'
+      exact absurd this (hne' e (by simp))
+  | cons d ds =>
+    cases l' with
+    | nil =>
+      have : d = [] := by
+        have h' : d ++ ds.flatten = ([] : Bytes) := by simpa using h
+        cases d with
+        | nil => rfl
+        | cons a b => simp at h'
+      exact absurd this (hne d (by simp))
+    | cons e es =>
+      have h1 := same_pieces d ds
+      have h2 := same_pieces e es
+      rw [h] at h1
+      exact .trans h1 (.symm h2)
+
+example : HExpat chunkyExpat where
+  chunking := fun c₁ c₂ h => by
+    have hf : (pieces c₁).flatten = (pieces c₂).flatten := by rw [pieces_flatten, pieces_flatten, h]
+    have := same_of_flatten _ _ (pieces_ne_nil c₁) (pieces_ne_nil c₂) hf
+    have := same_context this [.start (cs ['s']) [], .start (cs ['a']) []] []
+    simpa [chunkyExpat] using this
+  nulFree := fun c => by
+    intro i hi
+    simp [chunkyExpat, pieces] at hi
+    rcases hi with h | h | ⟨d, ⟨⟨x, _, hx⟩, _⟩, h⟩
+    · subst h; trivial
+    · subst h; trivial
+    · subst h; subst hx; simp [In.nulFree]
+  balanced := fun c => by
+    have : ∀ (l : List Bytes) d, balancedFrom d (l.map In.chars) = true := by
+      intro l; induction l with
+      | nil => intro d; rfl
+      | cons x rest ih => intro d; simp [balancedFrom, ih]
+    simp [chunkyExpat, Balanced, balancedFrom, this]
+  errFinal := fun c => by
+    have : ∀ (l : List Bytes) f, errFinalFrom f (l.map In.chars) = true := by
+      intro l; induction l with
+      | nil => intro f; rfl
+      | cons x rest ih => intro f; simp [errFinalFrom, ih]
+    simp [chunkyExpat, ErrFinal, errFinalFrom, this]
+
+/-- … under which "he" | "llo" and "hello" really give different callback sequences -/
+example : chunkyExpat [cs ['h', 'e'], cs ['l', 'l', 'o']] ≠ chunkyExpat [cs ['h', 'e', 'l', 'l', 'o']] := by decide
+
+/-- the `errTail` case as expat shows it for `<s><a>text]]>`: in one buffer the text is not reported,
+    split inside `]]>` it is; the owner sees the same either way -/
+example : SameUpToCharSplit
+    [.start (cs ['s']) [], .start (cs ['a']) [], .chars (cs ['t', 'e', 'x', 't']), .err, .err]
+    [.start (cs ['s']) [], .start (cs ['a']) [], .err, .err] :=
+  .errTail [.start (cs ['s']) [], .start (cs ['a']) []] (cs ['t', 'e', 'x', 't']) [.err] (by decide)
+
+example : ErrFinal [.start (cs ['s']) [], .start (cs ['a']) [], .chars (cs ['t']), .err, .err, .reset,
+    .start (cs ['s']) []] ∧ ¬ ErrFinal [.start (cs ['s']) [], .err, .start (cs ['a']) []] := by decide
+
+/-- without "a failed parser stays failed" text in front of an error WOULD be observable: if an
+    element could still be closed after the failure, the two traces deliver different stanzas -/
+example :
+    (assemble [.start (cs ['s']) [], .start (cs ['a']) [], .chars (cs ['t']), .err, .end_ (cs ['a'])]).evs =
+      [.open_ (cs ['s']) [], .error, .stanza (.elem (cs ['a']) [] [.text (cs ['t'])])] ∧
+    (assemble [.start (cs ['s']) [], .start (cs ['a']) [], .err, .end_ (cs ['a'])]).evs =
+      [.open_ (cs ['s']) [], .error, .stanza (.elem (cs ['a']) [] [])] :=
+  ⟨rfl, rfl⟩
 
 /-- `Balanced` holds for a real-looking trace and fails for a stray end tag -/
 example : Balanced [.start (cs ['s']) [], .start (cs ['a']) [], .end_ (cs ['a']), .reset, .start (cs ['s']) []] ∧
